@@ -1,5 +1,6 @@
 import RedisGoModel.Driver.Util
 import RedisGoModel.Driver.Glob
+import RedisGoModel.Driver.Parser
 /-! Correspondence driver: reads one observed operation per line on stdin, recomputes it with the model, prints
     `MISMATCH <lineno> <detail>` for every disagreement and a final `SUMMARY` line. -/
 open Driver
@@ -17,7 +18,7 @@ partial def loop (h : IO.FS.Stream) (st : St) : IO St := do
   let fs := fields line
   if fs.isEmpty then loop h st else
   let n := st.n + 1
-  match globLine fs with
+  match (globLine fs).orElse (fun _ => parserLine fs) with
   | some (.ok b) => loop h { st with n := n, pos := st.pos + (if b then 1 else 0) }
   | some (.error e) =>
     IO.println s!"MISMATCH {n} {e} :: {line}"
